@@ -169,10 +169,10 @@ Definition status_values (prefix : bytes) (l : list bytes) : list (bytes * N) :=
 Definition status_enum (e : entity) : component :=
   CEnum (component_name e (bs "Status")) (status_values (status_prefix e) (e_status e)).
 
-(* findStatus *)
+(* findStatus: the name visitEnumNode/addValue gives the status (fix 705ef70) *)
 Definition find_status (e : entity) (f : bytes) : option bytes :=
   if existsb (bytes_eqb f) (e_status e)
-  then Some (to_screaming_snake (e_name e) ++ bs "_STATUS_" ++ to_screaming_snake f)
+  then Some (status_value_name (status_prefix e) f)
   else None.
 Fixpoint default_filters (e : entity) (l : list bytes) : option (list bytes) :=
   match l with
@@ -332,6 +332,34 @@ Definition expand (e : entity) : outcome (list component) :=
       if nodup_bytes (map s_name (e_summaries e)) then Ok (expand_with e filters)
       else Err "duplicate summary name"
   end.
+
+(* ---- the client API's view (structure.APIFromImage + j5client.APIFromSource) ------------ *)
+Record client_entity := mkCE {
+  ce_name : bytes; ce_full_name : bytes; ce_schema : bytes;
+  ce_primary_key : list bytes;
+  ce_query : bytes; ce_query_methods : list (bytes * bytes);      (* (name, :param path) *)
+  ce_commands : list (bytes * list (bytes * N * bytes));          (* service, (method, verb, path) *)
+  ce_events : list bytes }.
+
+Definition command_base (e : entity) (c : command) : bytes :=
+  match c_base c with
+  | Some b => [47] ++ base_url e ++ [47] ++ b
+  | None => [47] ++ base_url e ++ bs "/c"
+  end.
+
+Definition client_view (e : entity) : client_entity :=
+  let n := query_prefix e in
+  let base := [47] ++ base_url e ++ bs "/q" in
+  mkCE (snake_name e) (e_pkg e ++ [47] ++ snake_name e) (e_pkg e ++ [46] ++ component_name e (bs "State"))
+       (map uf_name (filter is_primary (map k_def (e_keys e))))
+       (n ++ bs "QueryService")
+       [ (n ++ bs "Get", path_join base (join [47] (key_path (get_keys e))));
+         (n ++ bs "List", path_join base (join [47] (key_path (list_keys e))));
+         (n ++ bs "Events", path_join base (join [47] (key_path (get_keys e) ++ [bs "events"]))) ]
+       (map (fun c => (command_service_name e c ++ bs "Service",
+                       map (fun m => (md_name m, md_verb m, path_join (command_base e c) (md_path m))) (c_methods c)))
+            (e_commands e))
+       (map (fun ev => to_lower_camel (ev_name ev)) (e_events e)).
 
 (* ---- reference resolution (j5convert resolveType over the file's exports + implicitImports) *)
 Definition implicit_imports : list (bytes * bytes) :=
